@@ -766,3 +766,7 @@ SPECS["C04"]["level_text"] += ". The Roland (e2e:C02) and bin/cue (e2e:cdda_name
 # C05 quantifies over AKAI volumes AND Roland performances
 SPECS["C05"]["bounded"].append(("contracts.e2e_names", "e2e:roland_pairs"))
 SPECS["C05"]["level_text"] += ". Added: BOUNDED L/R pairing inside Roland performances (either directory order, two pairs, mixed names)"
+
+# C10 quantifies over every node of AKAI, Roland AND CDDA trees
+SPECS["C10"]["bounded"].append(("contracts.e2e_names", "e2e:trees"))
+SPECS["C10"]["level_text"] += ". Added: BOUNDED walks of whole Roland / two-partition AKAI / bin-cue trees through printed names (every node listed, every printed name resolves, siblings distinct)"
